@@ -52,6 +52,16 @@ def gen(tier):
         cases.append({'id': len(cases) + 1, 'mode': 'combiner', 'init': rng.choice([8, 16, 0]) if not big else 0,
                       'scratch': rng.choice([1, 2, 128]), 'target': rng.choice([1, 2, 3, 4, 1000000]) if not big else rng.choice([1, 50, 300, 1000000]),
                       'ops': ops, 'reads': [rng.choice([1, 2, 5, 128])], 'nkey': nkey})
+    # spilled runs longer than one read batch (128 rows) with different key sets: the merge refills a run's
+    # buffer while the other runs are part-way through theirs
+    for j in range(3 if tier == 'quick' else 40):
+        allk = [(k,) for k in rng.sample(range(100000), 700)]
+        ops = []
+        for _ in range(rng.choice([3, 4, 5])):
+            sub = rng.sample(allk, rng.choice([200, 260, 330]))
+            ops.append(['combine', [list(k) + [rng.randrange(1, 9)] for k in sub]])
+        cases.append({'id': len(cases) + 1, 'mode': 'combiner', 'init': 0, 'scratch': 0, 'target': rng.choice([150, 200, 256]),
+                      'ops': ops, 'reads': [rng.choice([5, 128, 300])], 'nkey': 1})
     # many spills, then a descriptor limit while Reader() opens them all at once
     for j in range(2 if tier == 'quick' else 10):
         keys = [(k,) for k in range(300)]
